@@ -430,7 +430,8 @@ def discPhase : Phase → Phase
   | .backoff => .exited
   | p => p
 
-/-- what an effective cancellation of Connect's context does to the phase -/
+/-- what an effective cancellation of Connect's context does to the phase (except inside the DialContext
+    of a dialer that ignores its context, where the phase stays `.dialGate`: `Shape.cancelDeaf`) -/
 def cancelPhase : Phase → Phase
   | .idle => .idle
   | .up k => .up k
@@ -445,6 +446,12 @@ def cancelErr : Phase → Bool → Bool
 /-- the connection a successful dial creates -/
 def freshConn (w : World) (idStart : Nat) : Conn :=
   { ctr := idStart, handler := w.handler, pkts := [(.connect, .sent .ok)] }
+
+/-- the connection created by a dial that succeeds after the context given to the first Connect was
+    cancelled (only a dialer that ignores its context gets that far): CONNECT is written, then
+    `BaseClient.Connect` returns the context's error and the loop closes the client — born dead -/
+def deadConn (w : World) (idStart : Nat) : Conn :=
+  { ctr := idStart, handler := w.handler, pkts := [(.connect, .sent .ok)], alive := false }
 
 /-- no connection changed its liveness -/
 def AliveEq (w w' : World) : Prop := ∀ j, (getConn w' j).alive = (getConn w j).alive
@@ -496,16 +503,34 @@ inductive Shape (w : World) : Ev → World → Prop
   | react (ev : Ev) (w1 : World) (h : Frame w w1) : Shape w ev (loopReact w1)
   | start (hp : w.phase = .idle) (hx : w.ctxCancelled = false) :
       Shape w .start { w with phase := .dialGate, dials := w.dials + 1 }
-  /-- Connect called with a context that is already done: one dial attempt, then the loop returns -/
-  | startCancelled (hp : w.phase = .idle) (hx : w.ctxCancelled = true) :
+  /-- Connect called with a context that is already done (context-aware dialer): one dial attempt, then
+      the loop returns -/
+  | startCancelled (hp : w.phase = .idle) (hx : w.ctxCancelled = true) (hdf : w.cfg.deafDialer = false) :
       Shape w .start { w with phase := .exited, dials := w.dials + 1, connectErr := true }
+  /-- … with a dialer that ignores its context: Connect returns the error, the dial goes on -/
+  | startCancelledDeaf (hp : w.phase = .idle) (hx : w.ctxCancelled = true) (hdf : w.cfg.deafDialer = true) :
+      Shape w .start { w with phase := .dialGate, dials := w.dials + 1, connectErr := true }
   | dialOk (i : Nat) (hp : w.phase = .dialGate) (w' : World)
       (hc : w'.conns = w.conns ++ [freshConn w i]) (hph : w'.phase = .connackGate w.conns.length)
       (hw : w'.waits = w.waits) (he : w'.waitExp = w.waitExp) (hd : w'.dials = w.dials)
-      (hs : w'.stopped = w.stopped) (hx : ctxSt w' = ctxSt w) : Shape w (.dialOk i) w'
+      (hs : w'.stopped = w.stopped) (hx : ctxSt w' = ctxSt w) (hcfg : w'.cfg = w.cfg)
+      (hnc : ¬ (w.ctxCancelled = true ∧ w.connectReturned = none)) : Shape w (.dialOk i) w'
+  /-- the dial succeeds after the context of the first Connect was cancelled (deaf dialer): a connection
+      that is born dead (CONNECT written, then closed), the loop ends; the task goroutine may still log
+      failed writes on it -/
+  | dialOkCancelled (i : Nat) (hp : w.phase = .dialGate) (hcc : w.ctxCancelled = true)
+      (hcr : w.connectReturned = none) (w' : World)
+      (hc : ConnsExt (w.conns ++ [deadConn w i]) w'.conns) (hph : w'.phase = .exited)
+      (hw : w'.waits = w.waits) (he : w'.waitExp = w.waitExp) (hd : w'.dials = w.dials)
+      (hs : w'.stopped = w.stopped) (hx : ctxSt w' = ctxSt w) (hcfg : w'.cfg = w.cfg) : Shape w (.dialOk i) w'
   /-- a dial error: the wait is logged, the loop sleeps; no new dial yet -/
-  | dialFail (hp : w.phase = .dialGate) (hs0 : w.stopped = false) :
+  | dialFail (hp : w.phase = .dialGate) (hs0 : w.stopped = false)
+      (hnc : ¬ (w.ctxCancelled = true ∧ w.connectReturned = none)) :
       Shape w .dialFail { w with phase := .backoff, waits := w.waits ++ [w.waitExp], waitExp := w.waitExp + 1 }
+  /-- a dial error after the context of the first Connect was cancelled (deaf dialer): the loop's select
+      on `ctx.Done()` returns, no wait -/
+  | dialFailCancelled (hp : w.phase = .dialGate) (hs0 : w.stopped = false) (hcc : w.ctxCancelled = true)
+      (hcr : w.connectReturned = none) : Shape w .dialFail { w with phase := .exited }
   /-- a dial error after Disconnect: the loop's select sees `disconnected` and returns -/
   | dialFailStopped (hp : w.phase = .dialGate) (hs0 : w.stopped = true) :
       Shape w .dialFail { w with phase := .exited }
@@ -518,7 +543,8 @@ inductive Shape (w : World) : Ev → World → Prop
       (hc : ConnsExt w.conns w1.conns) (hph : w1.phase = .up k)
       (hw : w1.waits = w.waits) (he : w1.waitExp = 0) (hd : w1.dials = w.dials)
       (hs : w1.stopped = w.stopped)
-      (hx : ctxSt w1 = (if w.connectReturned.isNone then some sp else w.connectReturned, w.ctxCancelled, w.connectErr)) :
+      (hx : ctxSt w1 = (if w.connectReturned.isNone then some sp else w.connectReturned, w.ctxCancelled, w.connectErr))
+      (hcfg : w1.cfg = w.cfg) :
       Shape w (.connackOk sp inb) (loopReact w1)
   /-- CONNACK accepted after Disconnect: the loop returns at once instead of watching the connection
       (the queued Disconnect task closes it) -/
@@ -527,7 +553,8 @@ inductive Shape (w : World) : Ev → World → Prop
       (hc : ConnsExt w.conns w'.conns) (hph : w'.phase = .exited)
       (hw : w'.waits = w.waits) (he : w'.waitExp = 0) (hd : w'.dials = w.dials)
       (hs : w'.stopped = w.stopped)
-      (hx : ctxSt w' = (if w.connectReturned.isNone then some sp else w.connectReturned, w.ctxCancelled, w.connectErr)) :
+      (hx : ctxSt w' = (if w.connectReturned.isNone then some sp else w.connectReturned, w.ctxCancelled, w.connectErr))
+      (hcfg : w'.cfg = w.cfg) :
       Shape w (.connackOk sp inb) w'
   /-- CONNACK refused or timed out, Disconnect not called: the wait is logged, the loop sleeps -/
   | connFail (ev : Ev) (hev : ev = .connackRefused ∨ ev = .connackNever) (k : Nat)
@@ -535,25 +562,32 @@ inductive Shape (w : World) : Ev → World → Prop
       (hc : ConnsExt w.conns w'.conns) (hdead : k < w.conns.length → (getConn w' k).alive = false)
       (hph : w'.phase = .backoff)
       (hw : w'.waits = w.waits ++ [w.waitExp]) (he : w'.waitExp = w.waitExp + 1) (hd : w'.dials = w.dials)
-      (hs : w'.stopped = w.stopped) (hx : ctxSt w' = ctxSt w) : Shape w ev w'
+      (hs : w'.stopped = w.stopped) (hx : ctxSt w' = ctxSt w) (hcfg : w'.cfg = w.cfg) : Shape w ev w'
   /-- CONNACK refused or timed out after Disconnect: the loop exits -/
   | connFailStopped (ev : Ev) (hev : ev = .connackRefused ∨ ev = .connackNever) (k : Nat)
       (hp : w.phase = .connackGate k) (hs0 : w.stopped = true) (w' : World)
       (hc : ConnsExt w.conns w'.conns) (hph : w'.phase = .exited)
       (hw : w'.waits = w.waits) (he : w'.waitExp = w.waitExp) (hd : w'.dials = w.dials)
-      (hs : w'.stopped = w.stopped) (hx : ctxSt w' = ctxSt w) : Shape w ev w'
+      (hs : w'.stopped = w.stopped) (hx : ctxSt w' = ctxSt w) (hcfg : w'.cfg = w.cfg) : Shape w ev w'
   | disc (hs0 : w.stopped = false) (w1 : World)
       (hc : ConnsExt w.conns w1.conns) (hph : w1.phase = w.phase)
       (hw : w1.waits = w.waits) (he : w1.waitExp = w.waitExp) (hd : w1.dials = w.dials)
-      (hs : w1.stopped = true) (hx : ctxSt w1 = ctxSt w) :
+      (hs : w1.stopped = true) (hx : ctxSt w1 = ctxSt w) (hcfg : w1.cfg = w.cfg) :
       Shape w .disconnect { loopReact w1 with phase := discPhase (loopReact w1).phase }
-  /-- an EFFECTIVE cancellation of the context given to Connect (Connect has not returned yet) -/
+  /-- an EFFECTIVE cancellation of the context given to Connect (Connect has not returned yet), except
+      inside the DialContext of a dialer that ignores its context (`cancelDeaf`) -/
   | cancel (hcc0 : w.ctxCancelled = false) (hcr0 : w.connectReturned = none) (w' : World)
       (hc : ConnsExt w.conns w'.conns) (hph : w'.phase = cancelPhase w.phase)
       (hup : ∀ k, w.phase = .up k → AliveEq w w')
       (hw : w'.waits = w.waits) (he : w'.waitExp = w.waitExp) (hd : w'.dials = w.dials)
       (hs : w'.stopped = w.stopped)
-      (hx : ctxSt w' = (none, true, cancelErr w.phase w.connectErr)) : Shape w .cancelCtx w'
+      (hx : ctxSt w' = (none, true, cancelErr w.phase w.connectErr)) (hcfg : w'.cfg = w.cfg)
+      (hnd : w.phase = .dialGate → w.cfg.deafDialer = false) : Shape w .cancelCtx w'
+  /-- an effective cancellation inside the DialContext of a dialer that ignores its context: Connect
+      returns the context's error at once, the dial goes on (the loop acts on its result: `dialOkCancelled`,
+      `dialFailCancelled`) -/
+  | cancelDeaf (hcc0 : w.ctxCancelled = false) (hcr0 : w.connectReturned = none) (hp : w.phase = .dialGate)
+      (hdf : w.cfg.deafDialer = true) : Shape w .cancelCtx { w with ctxCancelled := true, connectErr := true }
 
 theorem connectFailed_spec (w : World) (k : Nat) :
     ConnsExt w.conns (connectFailed w k).conns ∧
@@ -588,6 +622,15 @@ theorem connectFailed_spec (w : World) (k : Nat) :
     · show wk.waits ++ [wk.waitExp] = _; rw [hw, he]
     · show wk.waitExp + 1 = _; rw [he]
 
+theorem connectFailed_cfg (w : World) (k : Nat) : (connectFailed w k).cfg = w.cfg := by
+  have hk : Frame w (kill { w with connReady := true } k) :=
+    ((Frame.refl w).upd (w' := { w with connReady := true }) rfl rfl).trans (frame_kill _ _)
+  have hcf := hk.cfg
+  unfold connectFailed
+  generalize kill { w with connReady := true } k = wk at *
+  simp only
+  split <;> exact hcf
+
 theorem connectFailed_shape (w : World) (k : Nat) (ev : Ev) (hev : ev = .connackRefused ∨ ev = .connackNever)
     (hp : w.phase = .connackGate k) : Shape w ev (progress (connectFailed w k)) := by
   obtain ⟨hc, hdead, hs, hd, hx, hT, hF⟩ := connectFailed_spec w k
@@ -606,11 +649,11 @@ theorem connectFailed_shape (w : World) (k : Nat) (ev : Ev) (hev : ev = .connack
   · obtain ⟨f1, f2, f3⟩ := hF hst
     exact Shape.connFail ev hev k hp hst _ (hc.trans hf.1) (fun hlt => hf.dead (hdead hlt))
       (hf.phase.trans f1) (hf.waits.trans f2) (hf.waitExp.trans f3) (hf.dials.trans hd)
-      (hf.stopped.trans hs) (hf.ctx.trans hx)
+      (hf.stopped.trans hs) (hf.ctx.trans hx) (hf.cfg.trans (connectFailed_cfg w k))
   · obtain ⟨f1, f2, f3⟩ := hT hst
     exact Shape.connFailStopped ev hev k hp hst _ (hc.trans hf.1)
       (hf.phase.trans f1) (hf.waits.trans f2) (hf.waitExp.trans f3) (hf.dials.trans hd)
-      (hf.stopped.trans hs) (hf.ctx.trans hx)
+      (hf.stopped.trans hs) (hf.ctx.trans hx) (hf.cfg.trans (connectFailed_cfg w k))
 
 theorem disc_match (w : World) :
     (match w.phase with
@@ -700,6 +743,20 @@ theorem connackOkPre_spec (w : World) (k : Nat) (sp : Bool) (inb : List (Nat × 
   show (if (cokC (cokB w k sp inb) sp).stopped = true then Phase.exited else Phase.up k) = _
   rw [hst]
 
+theorem cokB_cfg (w : World) (k : Nat) (sp : Bool) (inb : List (Nat × Nat)) : (cokB w k sp inb).cfg = w.cfg := by
+  have ha : Frame w (setConn w k { getConn w k with connected := true }) :=
+    frame_setConn _ _ _ (CExt.of_eq rfl rfl)
+  have hb := ha.upd (w' := { setConn w k { getConn w k with connected := true } with
+      broker := if sp then (setConn w k { getConn w k with connected := true }).broker
+                else (setConn w k { getConn w k with connected := true }).broker.clearSession }) rfl rfl
+  have hc := hb.trans (frame_foldl_deliverInbound k inb _)
+  simp only [cokB]
+  exact hc.cfg
+
+theorem connackOkPre_cfg (w : World) (k : Nat) (sp : Bool) (inb : List (Nat × Nat)) :
+    (connackOkPre w k sp inb).cfg = w.cfg :=
+  ((frame_cokC (cokB w k sp inb) sp).cfg).trans (cokB_cfg w k sp inb)
+
 /-- `.cancelCtx` written with `cancelPhase`-style case analysis pulled out of `step` -/
 theorem step_cancel_noop (w : World) (h : w.ctxCancelled = true ∨ w.connectReturned.isSome = true) :
     step w .cancelCtx = w := by
@@ -747,6 +804,15 @@ theorem cancelGate_spec (w : World) (k : Nat) (hcr0 : w.connectReturned = none) 
     rw [h1, h2]
     simp [hcr0]
 
+theorem progress_cfg (w : World) : (progress w).cfg = w.cfg := by
+  unfold progress
+  rw [loopReact_cfg]; exact (frame_runTasks _ w).cfg
+
+theorem cancelGate_cfg (w : World) (k : Nat) : (cancelGate w k).cfg = w.cfg := by
+  unfold cancelGate
+  rw [progress_cfg]
+  exact (frame_kill { w with ctxCancelled := true, connReady := true } k).cfg
+
 /-- … the connection whose CONNACK was awaited is closed -/
 theorem cancelGate_dead (w : World) (k : Nat) (hk : k < w.conns.length) :
     (getConn (cancelGate w k) k).alive = false := by
@@ -763,8 +829,19 @@ theorem step_cancel_gate (w : World) (k : Nat) (hcc0 : w.ctxCancelled = false) (
     rw [hcc0, hcr0]; simp
   simp only [step, if_neg h, hp, cancelGate]
 
-/-- an EFFECTIVE `.cancelCtx` (Connect has not returned, the context was not cancelled before) -/
-theorem cancel_spec (w : World) (hcc0 : w.ctxCancelled = false) (hcr0 : w.connectReturned = none) :
+/-- an effective `.cancelCtx` inside the DialContext of a dialer that ignores its context: only the
+    context and Connect's result change, the dial goes on -/
+theorem step_cancel_deaf (w : World) (hcc0 : w.ctxCancelled = false) (hcr0 : w.connectReturned = none)
+    (hp : w.phase = .dialGate) (hdf : w.cfg.deafDialer = true) :
+    step w .cancelCtx = { w with ctxCancelled := true, connectErr := true } := by
+  have h : ¬ (w.ctxCancelled = true ∨ w.connectReturned.isSome = true) := by
+    rw [hcc0, hcr0]; simp
+  simp only [step, if_neg h, hp, hdf, if_true]
+
+/-- an EFFECTIVE `.cancelCtx` (Connect has not returned, the context was not cancelled before), except
+    inside the DialContext of a dialer that ignores its context (for which see `step_cancel_deaf`) -/
+theorem cancel_spec (w : World) (hcc0 : w.ctxCancelled = false) (hcr0 : w.connectReturned = none)
+    (hnd : w.phase = .dialGate → w.cfg.deafDialer = false) :
     ConnsExt w.conns (step w .cancelCtx).conns ∧ (step w .cancelCtx).phase = cancelPhase w.phase ∧
     (∀ k, w.phase = .up k → AliveEq w (step w .cancelCtx)) ∧
     (step w .cancelCtx).waits = w.waits ∧ (step w .cancelCtx).waitExp = w.waitExp ∧
@@ -783,8 +860,10 @@ theorem cancel_spec (w : World) (hcc0 : w.ctxCancelled = false) (hcr0 : w.connec
     rw [hst]
     exact ⟨ConnsExt.refl _, rfl, (fun k hk => by cases hk), rfl, rfl, rfl, rfl, by simp [ctxSt, cancelErr, hcr0]⟩
   | dialGate =>
+    have hdf : w.cfg.deafDialer = false := hnd hph
     have hst : step w .cancelCtx = { w with ctxCancelled := true, phase := .exited, connectErr := true } := by
-      simp only [step, if_neg h, hph]
+      simp only [step, if_neg h, hph, hdf]
+      rfl
     rw [hst]
     exact ⟨ConnsExt.refl _, rfl, (fun k hk => by cases hk), rfl, rfl, rfl, rfl, by simp [ctxSt, cancelErr, hcr0]⟩
   | exited =>
@@ -802,6 +881,18 @@ theorem cancel_spec (w : World) (hcc0 : w.ctxCancelled = false) (hcr0 : w.connec
     obtain ⟨c1, c2, c3, c4, c5, c6, c7⟩ := cancelGate_spec w k hcr0
     exact ⟨c1, c2, (fun k hk => by cases hk), c3, c4, c5, c6, c7⟩
 
+theorem step_cancel_cfg (w : World) : (step w .cancelCtx).cfg = w.cfg := by
+  by_cases h : w.ctxCancelled = true ∨ w.connectReturned.isSome = true
+  · rw [step_cancel_noop w h]
+  · cases hph : w.phase with
+    | connackGate k =>
+      have hst : step w .cancelCtx = cancelGate w k := by simp only [step, if_neg h, hph, cancelGate]
+      rw [hst]; exact cancelGate_cfg w k
+    | dialGate =>
+      simp only [step, if_neg h, hph]
+      split <;> rfl
+    | _ => simp only [step, if_neg h, hph]
+
 theorem step_shape (w : World) (ev : Ev) : Shape w ev (step w ev) := by
   cases ev with
   | start =>
@@ -811,7 +902,10 @@ theorem step_shape (w : World) (ev : Ev) : Shape w ev (step w ev) := by
     · rename_i h
       have hp : w.phase = .idle := by simpa using h
       split
-      · rename_i hx; exact Shape.startCancelled hp hx
+      · rename_i hx
+        split
+        · rename_i hdf; exact Shape.startCancelledDeaf hp hx hdf
+        · rename_i hdf; exact Shape.startCancelled hp hx (by simpa using hdf)
       · rename_i hx; exact Shape.start hp (by simpa using hx)
   | app r =>
     simp only [step]
@@ -824,7 +918,21 @@ theorem step_shape (w : World) (ev : Ev) : Shape w ev (step w ev) := by
     split
     · exact Shape.frame _ _ (Frame.refl _) (AliveEq.refl _)
     · rename_i h
-      exact Shape.dialOk i (by simpa using h) _ rfl rfl rfl rfl rfl rfl rfl
+      have hp : w.phase = .dialGate := by simpa using h
+      split
+      · rename_i hcn
+        have hcr : w.connectReturned = none := Option.isNone_iff_eq_none.1 hcn.2
+        have hf := progress_not_up
+          { w with conns := w.conns ++ [deadConn w i], cli := some w.conns.length, connReady := true,
+                   goroutine := true,
+                   gConnected := if w.goroutine ∧ w.gConnected ∧ ¬ w.stuck then false else w.gConnected,
+                   phase := .exited } (by intro k; simp)
+        exact Shape.dialOkCancelled i hp hcn.1 hcr _ hf.1 hf.phase hf.waits hf.waitExp hf.dials hf.stopped
+          hf.ctx hf.cfg
+      · rename_i hcn
+        refine Shape.dialOk i hp _ rfl rfl rfl rfl rfl rfl rfl rfl ?_
+        intro hc
+        exact hcn ⟨hc.1, by rw [hc.2]; rfl⟩
   | dialFail =>
     simp only [step]
     split
@@ -832,7 +940,15 @@ theorem step_shape (w : World) (ev : Ev) : Shape w ev (step w ev) := by
     · rename_i h
       split
       · rename_i hs; exact Shape.dialFailStopped (by simpa using h) hs
-      · rename_i hs; exact Shape.dialFail (by simpa using h) (by simpa using hs)
+      · rename_i hs
+        split
+        · rename_i hcn
+          exact Shape.dialFailCancelled (by simpa using h) (by simpa using hs) hcn.1
+            (Option.isNone_iff_eq_none.1 hcn.2)
+        · rename_i hcn
+          refine Shape.dialFail (by simpa using h) (by simpa using hs) ?_
+          intro hc
+          exact hcn ⟨hc.1, by rw [hc.2]; rfl⟩
   | waitElapsed =>
     simp only [step]
     split
@@ -849,8 +965,16 @@ theorem step_shape (w : World) (ev : Ev) : Shape w ev (step w ev) := by
         cases hx : w.connectReturned
         · rfl
         · exact absurd (Or.inr (by rw [hx]; rfl)) h
-      obtain ⟨c1, c2, c3, c4, c5, c6, c7, c8⟩ := cancel_spec w hcc0 hcr0
-      exact Shape.cancel hcc0 hcr0 _ c1 c2 c3 c4 c5 c6 c7 c8
+      by_cases hdd : w.phase = .dialGate ∧ w.cfg.deafDialer = true
+      · rw [step_cancel_deaf w hcc0 hcr0 hdd.1 hdd.2]
+        exact Shape.cancelDeaf hcc0 hcr0 hdd.1 hdd.2
+      · have hnd : w.phase = .dialGate → w.cfg.deafDialer = false := by
+          intro hp
+          cases hq : w.cfg.deafDialer
+          · rfl
+          · exact absurd ⟨hp, hq⟩ hdd
+        obtain ⟨c1, c2, c3, c4, c5, c6, c7, c8⟩ := cancel_spec w hcc0 hcr0 hnd
+        exact Shape.cancel hcc0 hcr0 _ c1 c2 c3 c4 c5 c6 c7 c8 (step_cancel_cfg w) hnd
   | connackOk sp inb =>
     rw [step_connackOk]
     split
@@ -861,6 +985,7 @@ theorem step_shape (w : World) (ev : Ev) : Shape w ev (step w ev) := by
       · rw [hst] at h2
         exact Shape.connOk sp inb k hk hst _ (h1.trans hf.1) (hf.phase.trans h2) (hf.waits.trans h3)
           (hf.waitExp.trans h4) (hf.dials.trans h5) (hf.stopped.trans h6) (hf.ctx.trans h7)
+          (hf.cfg.trans (connackOkPre_cfg w k sp inb))
       · rw [hst] at h2
         have hph : (runTasks ((connackOkPre w k sp inb).taskQ.length + 1) (connackOkPre w k sp inb)).phase
             = .exited := hf.phase.trans h2
@@ -871,6 +996,7 @@ theorem step_shape (w : World) (ev : Ev) : Shape w ev (step w ev) := by
         rw [hlr]
         exact Shape.connOkStopped sp inb k hk hst _ (h1.trans hf.1) hph (hf.waits.trans h3)
           (hf.waitExp.trans h4) (hf.dials.trans h5) (hf.stopped.trans h6) (hf.ctx.trans h7)
+          (hf.cfg.trans (connackOkPre_cfg w k sp inb))
     · exact Shape.frame _ _ (Frame.refl _) (AliveEq.refl _)
   | connackRefused =>
     simp only [step]
@@ -913,7 +1039,7 @@ theorem step_shape (w : World) (ev : Ev) : Shape w ev (step w ev) := by
         { pushTask w .disconnect with stopped := true }
       exact Shape.disc (by simpa using hs) _ (h0.1.trans hf.1) (hf.phase.trans h0.phase)
         (hf.waits.trans h0.waits) (hf.waitExp.trans h0.waitExp) (hf.dials.trans h0.dials) (hf.stopped.trans rfl)
-        (hf.ctx.trans h0.ctx)
+        (hf.ctx.trans h0.ctx) (hf.cfg.trans h0.cfg)
 
 /-! ### invariants over whole runs -/
 
@@ -1009,6 +1135,24 @@ theorem TInv.shape {w w' : World} {ev : Ev} (h : TInv w) (hs : Shape w ev w') : 
     intro _ k hk
     exact absurd hk (by simp only; omega)
   | startCancelled hp => exact ⟨h.1, by simp, by simp, by simp⟩
+  | startCancelledDeaf hp =>
+    have h0 := h.2.2.1 hp
+    refine ⟨h.1, ?_, by simp, by simp⟩
+    intro _ k hk
+    exact absurd hk (by simp only; omega)
+  | dialOkCancelled i hp _ _ _ hc hph =>
+    have hall := h.2.1 (Or.inl hp)
+    refine ⟨?_, by simp [hph], by simp [hph], by simp [hph]⟩
+    intro k hk
+    rw [hc.1] at hk
+    simp at hk
+    have := hall k hk
+    unfold getConn at this ⊢
+    apply hc.dead
+    rw [getD_append_left _ _ _ hk]
+    exact this
+  | dialFailCancelled hp => exact ⟨h.1, by simp, by simp, by simp⟩
+  | cancelDeaf _ _ hp => exact ⟨h.1, fun _ => h.2.1 (Or.inl hp), by simp [hp], by simp [hp]⟩
   | dialOk i hp _ hc hph hw he hd hs =>
     have hall := h.2.1 (Or.inl hp)
     refine ⟨?_, by simp [hph], by simp [hph], ?_⟩
@@ -1115,16 +1259,27 @@ theorem CInv.snoc {cs : List Conn} (h : CInv cs) {c : Conn} (hc : ConnOK c) : CI
     simp at hk
     rw [← hk]; exact hc
 
+theorem deadConn_ok (w : World) (i : Nat) : ConnOK (deadConn w i) := by
+  simp [ConnOK, deadConn]
+
+/-- what one step does to the list of connections: every connection is extended (`ConnsExt`), or a
+    fresh one is appended, or (a dial that succeeds after the first Connect's context was cancelled) a
+    dead one is appended, on which the task goroutine may log failed writes at once -/
 theorem shape_conns {w w' : World} {ev : Ev} (hs : Shape w ev w') :
-    ConnsExt w.conns w'.conns ∨ ∃ i, w'.conns = w.conns ++ [freshConn w i] := by
+    ConnsExt w.conns w'.conns ∨ (∃ i, w'.conns = w.conns ++ [freshConn w i]) ∨
+      ∃ i, ConnsExt (w.conns ++ [deadConn w i]) w'.conns := by
   cases hs with
+  | startCancelledDeaf hp => exact Or.inl (ConnsExt.refl _)
+  | dialOkCancelled i hp _ _ _ hc => exact Or.inr (Or.inr ⟨i, hc⟩)
+  | dialFailCancelled hp => exact Or.inl (ConnsExt.refl _)
+  | cancelDeaf => exact Or.inl (ConnsExt.refl _)
   | frame _ _ hf => exact Or.inl hf.1
   | react _ w1 hf => left; rw [loopReact_conns]; exact hf.1
   | start hp => exact Or.inl (ConnsExt.refl _)
   | startCancelled hp => exact Or.inl (ConnsExt.refl _)
   | waitElapsed hp => exact Or.inl (ConnsExt.refl _)
   | cancel _ _ _ hc => exact Or.inl hc
-  | dialOk i hp _ hc => exact Or.inr ⟨i, hc⟩
+  | dialOk i hp _ hc => exact Or.inr (Or.inl ⟨i, hc⟩)
   | dialFail hp => exact Or.inl (ConnsExt.refl _)
   | dialFailStopped hp => exact Or.inl (ConnsExt.refl _)
   | connOk sp inb k hp _ w1 hc => left; rw [loopReact_conns]; exact hc
@@ -1137,9 +1292,10 @@ theorem CInv.exec (s : Script) : CInv (exec s).conns := by
   refine exec_inv (fun w => CInv w.conns) ?_ ?_ s
   · intro s k c hk; simp [init] at hk
   · intro w ev h
-    rcases shape_conns (step_shape w ev) with he | ⟨i, he⟩
+    rcases shape_conns (step_shape w ev) with he | ⟨i, he⟩ | ⟨i, he⟩
     · exact h.ext he
     · rw [he]; exact h.snoc (freshConn_ok w i)
+    · exact (h.snoc (deadConn_ok w i)).ext he
 
 /-! #### (3) the waits -/
 
@@ -1165,6 +1321,10 @@ theorem shape_waits {w w' : World} {ev : Ev} (hs : Shape w ev w') :
     · right; left; rw [a, b, hf.waits, hf.waitExp]; exact ⟨rfl, rfl⟩
   | start hp => exact Or.inl ⟨rfl, rfl⟩
   | startCancelled hp => exact Or.inl ⟨rfl, rfl⟩
+  | startCancelledDeaf hp => exact Or.inl ⟨rfl, rfl⟩
+  | dialOkCancelled i hp _ _ _ hc hph hw he => exact Or.inl ⟨hw, he⟩
+  | dialFailCancelled hp => exact Or.inl ⟨rfl, rfl⟩
+  | cancelDeaf => exact Or.inl ⟨rfl, rfl⟩
   | waitElapsed hp => exact Or.inl ⟨rfl, rfl⟩
   | cancel _ _ _ hc hph hup hw he => exact Or.inl ⟨hw, he⟩
   | dialOk i hp _ hc hph hw he hd hs => exact Or.inl ⟨hw, he⟩
@@ -1243,6 +1403,18 @@ theorem stopped_shape {w w' : World} {ev : Ev} (h : w.stopped = true) (hs : Shap
     refine ⟨h, Nat.le_succ _, Nat.le_refl _, ?_, ?_⟩
     · rw [hp]; exact Nat.le_refl _
     · rw [hp]; show w.conns.length + 0 ≤ _; omega
+  | startCancelledDeaf hp =>
+    refine ⟨h, Nat.le_succ _, Nat.le_refl _, ?_, ?_⟩
+    · rw [hp]; exact Nat.le_refl _
+    · rw [hp]; exact Nat.le_refl _
+  | dialOkCancelled i hp _ _ _ hc hph hw he hd hs =>
+    have hl : w'.conns.length = w.conns.length + 1 := by rw [hc.1]; simp
+    refine ⟨hs.trans h, by rw [hd]; exact Nat.le_refl _, by omega, ?_, ?_⟩
+    · rw [hd, hph, hp]; exact Nat.le_refl _
+    · rw [hl, hph, hp]; simp [connBudget]
+  | dialFailCancelled hp hs0 => rw [h] at hs0; cases hs0
+  | cancelDeaf =>
+    exact ⟨h, Nat.le_refl _, Nat.le_refl _, Nat.le_refl _, Nat.le_refl _⟩
   | waitElapsed hp =>
     refine ⟨h, Nat.le_succ _, Nat.le_refl _, ?_, ?_⟩
     · rw [hp]; exact Nat.le_refl _
@@ -1298,6 +1470,10 @@ theorem exited_shape {w w' : World} {ev : Ev} (h : w.phase = .exited) (hs : Shap
     exact ⟨hf.phase.trans h, hf.dials, hf.length⟩
   | start hp => rw [h] at hp; cases hp
   | startCancelled hp => rw [h] at hp; cases hp
+  | startCancelledDeaf hp => rw [h] at hp; cases hp
+  | dialOkCancelled i hp => rw [h] at hp; cases hp
+  | dialFailCancelled hp => rw [h] at hp; cases hp
+  | cancelDeaf _ _ hp => rw [h] at hp; cases hp
   | waitElapsed hp => rw [h] at hp; cases hp
   | cancel _ _ _ hc hph hup hw he hd => exact ⟨by rw [hph, h]; rfl, hd, hc.1⟩
   | dialOk i hp => rw [h] at hp; cases hp
@@ -1335,6 +1511,10 @@ theorem idle_shape {w w' : World} {ev : Ev} (h : w.phase = .idle) (hev : ev ≠ 
     exact ⟨hf.phase.trans h, hf.dials, hf.length⟩
   | start hp => exact absurd rfl hev
   | startCancelled hp => exact absurd rfl hev
+  | startCancelledDeaf hp => exact absurd rfl hev
+  | dialOkCancelled i hp => rw [h] at hp; cases hp
+  | dialFailCancelled hp => rw [h] at hp; cases hp
+  | cancelDeaf _ _ hp => rw [h] at hp; cases hp
   | waitElapsed hp => rw [h] at hp; cases hp
   | cancel _ _ _ hc hph hup hw he hd => exact ⟨by rw [hph, h]; rfl, hd, hc.1⟩
   | dialOk i hp => rw [h] at hp; cases hp
@@ -1408,6 +1588,10 @@ theorem UInv.shape {w w' : World} {ev : Ev} (h : UInv w) (hs : Shape w ev w') : 
   | react _ w1 hf => exact hlr w1
   | start hp => intro k hk; cases hk
   | startCancelled hp => intro k hk; cases hk
+  | startCancelledDeaf hp => intro k hk; cases hk
+  | dialOkCancelled i hp _ _ _ hc hph => intro k hk; rw [hph] at hk; cases hk
+  | dialFailCancelled hp => intro k hk; cases hk
+  | cancelDeaf _ _ hp => intro k hk; rw [show w.phase = .dialGate from hp] at hk; cases hk
   | waitElapsed hp => intro k hk; cases hk
   | cancel _ _ _ hc hph hup =>
     intro k hk
@@ -1455,6 +1639,10 @@ theorem SInv.shape {w w' : World} {ev : Ev} (h : SInv w) (hs : Shape w ev w') : 
     intro hs; rw [hf.phase]; exact h (hf.stopped ▸ hs)
   | start hp => intro _; simp
   | startCancelled hp => intro _; simp
+  | startCancelledDeaf hp => intro _; simp
+  | dialOkCancelled i hp _ _ _ hc hph => intro _; rw [hph]; simp
+  | dialFailCancelled hp => intro _; simp
+  | cancelDeaf _ _ hp => intro _; rw [show w.phase = .dialGate from hp]; simp
   | dialOk i hp _ hc hph => intro _; rw [hph]; simp
   | dialFail hp hs0 => intro hs; rw [show w.stopped = true from hs] at hs0; cases hs0
   | dialFailStopped hp => intro _; simp
@@ -1512,6 +1700,15 @@ theorem DInv.shape {w w' : World} {ev : Ev} (h : DInv w) (hs : Shape w ev w') : 
     obtain ⟨a, b⟩ := h
     show w.waits.length ≤ w.dials + 1 ∧ w.dials + 1 ≤ w.waits.length + 1 ∧ 1 ≤ w.dials + 1
     rw [a, b]; exact ⟨by omega, by omega, by omega⟩
+  | startCancelledDeaf hp =>
+    unfold DInv at h ⊢; rw [hp] at h
+    obtain ⟨a, b⟩ := h
+    show w.dials + 1 = w.waits.length + 1
+    rw [a, b]
+  | dialOkCancelled i hp _ _ _ hc hph hw he hd hs =>
+    unfold DInv at h ⊢; rw [hp] at h; rw [hph, hd, hw]; simp [DRel] at h ⊢; omega
+  | dialFailCancelled hp => unfold DInv at h ⊢; rw [hp] at h; simp [DRel] at h ⊢; omega
+  | cancelDeaf => exact h
   | dialOk i hp _ hc hph hw he hd hs =>
     unfold DInv at h ⊢; rw [hp] at h; rw [hph, hd, hw]; simpa [DRel] using h
   | dialFail hp hs0 => unfold DInv at h ⊢; rw [hp] at h; simp [DRel] at h ⊢; omega
@@ -1544,6 +1741,10 @@ theorem shape_dials {w w' : World} {ev : Ev} (hs : Shape w ev w') :
   | react _ w1 hf => left; rw [loopReact_dials]; exact hf.dials
   | start hp => exact Or.inr ⟨rfl, Or.inl ⟨rfl, hp⟩⟩
   | startCancelled hp => exact Or.inr ⟨rfl, Or.inl ⟨rfl, hp⟩⟩
+  | startCancelledDeaf hp => exact Or.inr ⟨rfl, Or.inl ⟨rfl, hp⟩⟩
+  | dialOkCancelled i hp _ _ _ hc hph hw he hd hs => exact Or.inl hd
+  | dialFailCancelled hp => exact Or.inl rfl
+  | cancelDeaf => exact Or.inl rfl
   | dialOk i hp _ hc hph hw he hd hs => exact Or.inl hd
   | dialFail hp hs0 => exact Or.inl rfl
   | dialFailStopped hp => exact Or.inl rfl
@@ -1569,6 +1770,10 @@ theorem shape_not_idle {w w' : World} {ev : Ev} (h : w.phase ≠ .idle) (hs : Sh
   | react _ w1 hf => exact hlr w1 (by rw [hf.phase]; exact h)
   | start hp => simp
   | startCancelled hp => simp
+  | startCancelledDeaf hp => simp
+  | dialOkCancelled i hp _ _ _ hc hph => rw [hph]; simp
+  | dialFailCancelled hp => simp
+  | cancelDeaf => exact h
   | dialOk i hp _ hc hph => rw [hph]; simp
   | dialFail hp hs0 => simp
   | dialFailStopped hp => simp
@@ -1638,6 +1843,10 @@ theorem shape_ctxMono {w w' : World} {ev : Ev} (hs : Shape w ev w') : CtxMono w 
   | react _ w1 hf => exact CtxMono.of_eq ((loopReact_ctx w1).trans hf.ctx)
   | start hp => exact CtxMono.refl _
   | startCancelled hp => exact ⟨fun _ => rfl, id, fun _ => rfl⟩
+  | startCancelledDeaf hp => exact ⟨fun _ => rfl, id, fun _ => rfl⟩
+  | dialOkCancelled i hp _ _ _ hc hph hw he hd hs hx => exact CtxMono.of_eq hx
+  | dialFailCancelled hp => exact CtxMono.refl _
+  | cancelDeaf => exact ⟨fun _ => rfl, fun _ => rfl, fun _ => rfl⟩
   | dialOk i hp _ hc hph hw he hd hs hx => exact CtxMono.of_eq hx
   | dialFail hp hs0 => exact CtxMono.refl _
   | dialFailStopped hp => exact CtxMono.refl _
@@ -1659,72 +1868,183 @@ theorem ctxMono_foldl (evs : List Ev) (w : World) : CtxMono w (evs.foldl step w)
   | nil => exact CtxMono.refl _
   | cons e evs ih => exact (shape_ctxMono (step_shape w e)).trans (ih _)
 
-/-- Connect returns once: an error only from a loop that has ended without ever connecting, and only
-    for a cancelled context; a loop watching a connection (`.up`) has returned success -/
+/-! the configuration never changes -/
+
+theorem shape_cfg {w w' : World} {ev : Ev} (hs : Shape w ev w') : w'.cfg = w.cfg := by
+  cases hs with
+  | frame _ _ hf => exact hf.cfg
+  | react _ w1 hf => exact (loopReact_cfg w1).trans hf.cfg
+  | start => rfl
+  | startCancelled => rfl
+  | startCancelledDeaf => rfl
+  | dialOk i hp _ hc hph hw he hd hs hx hcfg => exact hcfg
+  | dialOkCancelled i hp _ _ _ hc hph hw he hd hs hx hcfg => exact hcfg
+  | dialFail => rfl
+  | dialFailCancelled => rfl
+  | dialFailStopped => rfl
+  | waitElapsed => rfl
+  | connOk sp inb k hp _ w1 hc hph hw he hd hs hx hcfg => exact (loopReact_cfg w1).trans hcfg
+  | connOkStopped sp inb k hp _ _ hc hph hw he hd hs hx hcfg => exact hcfg
+  | connFail _ hev k hp _ _ hc hdead hph hw he hd hs hx hcfg => exact hcfg
+  | connFailStopped _ hev k hp _ _ hc hph hw he hd hs hx hcfg => exact hcfg
+  | disc hs0 w1 hc hph hw he hd hs hx hcfg => exact (loopReact_cfg w1).trans hcfg
+  | cancel _ _ _ hc hph hup hw he hd hs hx hcfg => exact hcfg
+  | cancelDeaf => rfl
+
+theorem step_cfg (w : World) (ev : Ev) : (step w ev).cfg = w.cfg := shape_cfg (step_shape w ev)
+
+theorem foldl_step_cfg (evs : List Ev) (w : World) : (evs.foldl step w).cfg = w.cfg := by
+  induction evs generalizing w with
+  | nil => rfl
+  | cons e evs ih => exact (ih _).trans (step_cfg w e)
+
+theorem exec_cfg (s : Script) : (exec s).cfg = s.cfg := foldl_step_cfg s.evs (init s)
+
+/-- where a loop whose `Connect` has returned the context's error can be: ended, or — only with a dialer
+    that ignores its context — still inside the DialContext that was in flight when the context was
+    cancelled (it ends as soon as that dial resolves: `cancelled_shape`) -/
+def ErrPhase (w : World) : Prop := w.phase = .exited ∨ (w.phase = .dialGate ∧ w.cfg.deafDialer = true)
+
+/-- Connect returns once: an error only for a cancelled context, from a loop that never connected and
+    has ended (or is inside the last DialContext of a context-deaf dialer, `ErrPhase`); a loop watching a
+    connection (`.up`) has returned success; and once Connect was called, a cancelled context without a
+    success means that the error has been returned -/
 def XInv (w : World) : Prop :=
   (w.phase = .idle → w.connectReturned = none ∧ w.connectErr = false) ∧
-  (w.connectErr = true → w.phase = .exited ∧ w.connectReturned = none ∧ w.ctxCancelled = true) ∧
-  (∀ k, w.phase = .up k → w.connectReturned.isSome = true)
+  (w.connectErr = true → ErrPhase w ∧ w.connectReturned = none ∧ w.ctxCancelled = true) ∧
+  (∀ k, w.phase = .up k → w.connectReturned.isSome = true) ∧
+  (w.ctxCancelled = true → w.connectReturned = none → w.phase ≠ .idle → w.connectErr = true)
 
-theorem XInv.noErr {w : World} (h : XInv w) (hp : w.phase ≠ .exited) : w.connectErr = false := by
+theorem XInv.noErr {w : World} (h : XInv w) (hp : w.phase ≠ .exited) (hd : w.phase ≠ .dialGate) :
+    w.connectErr = false := by
   cases hq : w.connectErr
   · rfl
-  · exact absurd (h.2.1 hq).1 hp
+  · rcases (h.2.1 hq).1 with a | ⟨a, _⟩
+    · exact absurd a hp
+    · exact absurd a hd
 
-theorem XInv.transfer {w w' : World} (h : XInv w) (hp : w'.phase = w.phase) (hx : ctxSt w' = ctxSt w) : XInv w' := by
+/-- no error was returned while the context of the first Connect is live (or Connect has succeeded) -/
+theorem XInv.noErr_of_live {w : World} (h : XInv w)
+    (hnc : ¬ (w.ctxCancelled = true ∧ w.connectReturned = none)) : w.connectErr = false := by
+  cases hq : w.connectErr
+  · rfl
+  · obtain ⟨_, a, b⟩ := h.2.1 hq
+    exact absurd ⟨b, a⟩ hnc
+
+/-- waiting to redial, awaiting a CONNACK or connected: the context of the first Connect is live, or
+    Connect has succeeded -/
+theorem XInv.live {w : World} (h : XInv w) (hi : w.phase ≠ .idle) (hp : w.phase ≠ .exited)
+    (hd : w.phase ≠ .dialGate) : ¬ (w.ctxCancelled = true ∧ w.connectReturned = none) := by
+  intro hc
+  have h1 := h.2.2.2 hc.1 hc.2 hi
+  rw [h.noErr hp hd] at h1
+  cases h1
+
+/-- a cancelled first Connect: the loop has not started, has ended, or is inside the DialContext of a
+    dialer that ignores its context -/
+theorem XInv.cancelled_phase {w : World} (h : XInv w) (hcc : w.ctxCancelled = true)
+    (hcr : w.connectReturned = none) :
+    w.phase = .idle ∨ w.phase = .exited ∨ (w.phase = .dialGate ∧ w.cfg.deafDialer = true) := by
+  by_cases hi : w.phase = .idle
+  · exact Or.inl hi
+  · exact Or.inr (h.2.1 (h.2.2.2 hcc hcr hi)).1
+
+/-- with a context-aware dialer the two new branches of `step` (`.dialOk` / `.dialFail` in `.dialGate`
+    with a cancelled first Connect) are never taken -/
+theorem XInv.not_deaf {w : World} (h : XInv w) (hdf : w.cfg.deafDialer = false) :
+    ¬ (w.phase = .dialGate ∧ w.ctxCancelled = true ∧ w.connectReturned = none) := by
+  rintro ⟨hp, hcc, hcr⟩
+  rcases h.cancelled_phase hcc hcr with a | a | ⟨_, a⟩
+  · rw [hp] at a; cases a
+  · rw [hp] at a; cases a
+  · rw [hdf] at a; cases a
+
+theorem XInv.transfer {w w' : World} (h : XInv w) (hp : w'.phase = w.phase) (hx : ctxSt w' = ctxSt w)
+    (hcfg : w'.cfg = w.cfg) : XInv w' := by
   obtain ⟨a, b, c⟩ := ctxSt_eq hx
-  unfold XInv
-  rw [hp, a, b, c]; exact h
+  unfold XInv ErrPhase
+  rw [hp, a, b, c, hcfg]; exact h
+
+/-- a step that leaves `connectErr` false, the context live (or Connect successful), and does not end
+    in `.idle` / `.up` -/
+theorem XInv.of_live {w' : World} (he : w'.connectErr = false) (hi : w'.phase ≠ .idle)
+    (hu : ∀ k, w'.phase ≠ .up k) (hl : ¬ (w'.ctxCancelled = true ∧ w'.connectReturned = none)) : XInv w' :=
+  And.intro (fun h => absurd h hi)
+    (And.intro (fun h => by rw [he] at h; cases h)
+      (And.intro (fun k h => absurd h (hu k)) (fun a b _ => absurd ⟨a, b⟩ hl)))
+
+/-- a step into `.exited` that leaves Connect's outcome as it is, from a loop that had started -/
+theorem XInv.to_exited {w w' : World} (h : XInv w) (hi : w.phase ≠ .idle) (hp : w'.phase = .exited)
+    (hx : ctxSt w' = ctxSt w) : XInv w' := by
+  obtain ⟨a, b, c⟩ := ctxSt_eq hx
+  refine And.intro (by rw [hp]; simp) (And.intro (fun hq => ?_) (And.intro (by rw [hp]; simp) (fun h1 h2 _ => ?_)))
+  · rw [c] at hq
+    obtain ⟨_, x, y⟩ := h.2.1 hq
+    exact ⟨Or.inl hp, a.trans x, b.trans y⟩
+  · rw [c]; exact h.2.2.2 (b ▸ h1) (a ▸ h2) hi
 
 theorem XInv.loopReact {w : World} (h : XInv w) : XInv (loopReact w) := by
   rcases loopReact_cases w with ⟨e, _⟩ | ⟨k, hk, _, _, e⟩ | ⟨k, hk, _, _, e⟩
   · rw [e]; exact h
   · rw [e]
-    have hne := h.noErr (by rw [hk]; simp)
-    refine And.intro (by simp) (And.intro (fun hq => ?_) (by simp))
-    rw [show w.connectErr = true from hq] at hne; cases hne
+    exact XInv.of_live (h.noErr (by rw [hk]; simp) (by rw [hk]; simp)) (by simp) (by simp)
+      (h.live (by rw [hk]; simp) (by rw [hk]; simp) (by rw [hk]; simp))
   · rw [e]
-    have hne := h.noErr (by rw [hk]; simp)
-    refine And.intro (by simp) (And.intro (fun hq => ?_) (by simp))
-    rw [show w.connectErr = true from hq] at hne; cases hne
+    exact XInv.of_live (h.noErr (by rw [hk]; simp) (by rw [hk]; simp)) (by simp) (by simp)
+      (h.live (by rw [hk]; simp) (by rw [hk]; simp) (by rw [hk]; simp))
 
-/-- a step that leaves `connectErr` false and does not end in `.idle` / `.up` -/
-theorem XInv.of_noErr {w' : World} (he : w'.connectErr = false) (hi : w'.phase ≠ .idle)
-    (hu : ∀ k, w'.phase ≠ .up k) : XInv w' :=
-  And.intro (fun h => absurd h hi)
-    (And.intro (fun h => by rw [he] at h; cases h) (fun k h => absurd h (hu k)))
+/-- an accepted CONNACK: Connect has (now or before) returned success -/
+theorem connOk_returned {w w1 : World} {sp : Bool}
+    (hx : ctxSt w1 = (if w.connectReturned.isNone then some sp else w.connectReturned, w.ctxCancelled, w.connectErr)) :
+    w1.connectReturned.isSome = true := by
+  rw [(ctxSt_eq' hx).1]
+  cases w.connectReturned <;> rfl
 
 theorem XInv.shape {w w' : World} {ev : Ev} (h : XInv w) (hs : Shape w ev w') : XInv w' := by
   cases hs with
-  | frame _ _ hf => exact h.transfer hf.phase hf.ctx
-  | react _ w1 hf => exact (h.transfer hf.phase hf.ctx).loopReact
-  | start hp => exact XInv.of_noErr (h.noErr (by rw [hp]; simp)) (by simp) (by simp)
+  | frame _ _ hf => exact h.transfer hf.phase hf.ctx hf.cfg
+  | react _ w1 hf => exact (h.transfer hf.phase hf.ctx hf.cfg).loopReact
+  | start hp hx =>
+    exact XInv.of_live (h.1 hp).2 (by simp) (by simp) (fun hc => by rw [show w.ctxCancelled = false from hx] at hc; cases hc.1)
   | startCancelled hp hx =>
-    exact And.intro (by simp) (And.intro (fun _ => ⟨rfl, (h.1 hp).1, hx⟩) (by simp))
-  | dialOk i hp _ hc hph hw he hd hs hx =>
-    refine XInv.of_noErr ?_ (by rw [hph]; simp) (by rw [hph]; simp)
-    rw [(ctxSt_eq hx).2.2]; exact h.noErr (by rw [hp]; simp)
-  | dialFail hp hs0 => exact XInv.of_noErr (h.noErr (by rw [hp]; simp)) (by simp) (by simp)
-  | dialFailStopped hp => exact XInv.of_noErr (h.noErr (by rw [hp]; simp)) (by simp) (by simp)
-  | waitElapsed hp => exact XInv.of_noErr (h.noErr (by rw [hp]; simp)) (by simp) (by simp)
+    exact And.intro (by simp) (And.intro (fun _ => ⟨Or.inl rfl, (h.1 hp).1, hx⟩)
+      (And.intro (by simp) (fun _ _ _ => rfl)))
+  | startCancelledDeaf hp hx hdf =>
+    exact And.intro (by simp) (And.intro (fun _ => ⟨Or.inr ⟨rfl, hdf⟩, (h.1 hp).1, hx⟩)
+      (And.intro (by simp) (fun _ _ _ => rfl)))
+  | dialOk i hp _ hc hph hw he hd hs hx hcfg hnc =>
+    obtain ⟨a, b, c⟩ := ctxSt_eq hx
+    refine XInv.of_live ?_ (by rw [hph]; simp) (by rw [hph]; simp) (by rw [a, b]; exact hnc)
+    rw [c]; exact h.noErr_of_live hnc
+  | dialOkCancelled i hp _ _ _ hc hph hw he hd hs hx =>
+    exact h.to_exited (by rw [hp]; simp) hph hx
+  | dialFail hp hs0 hnc => exact XInv.of_live (h.noErr_of_live hnc) (by simp) (by simp) hnc
+  | dialFailCancelled hp => exact h.to_exited (by rw [hp]; simp) rfl rfl
+  | dialFailStopped hp => exact h.to_exited (by rw [hp]; simp) rfl rfl
+  | waitElapsed hp =>
+    exact XInv.of_live (h.noErr (by rw [hp]; simp) (by rw [hp]; simp)) (by simp) (by simp)
+      (h.live (by rw [hp]; simp) (by rw [hp]; simp) (by rw [hp]; simp))
   | connOk sp inb k hp _ w1 hc hph hw he hd hs hx =>
     apply XInv.loopReact
+    have hr := connOk_returned hx
     obtain ⟨a, b, c⟩ := ctxSt_eq' hx
-    have hne : w1.connectErr = false := by rw [c]; exact h.noErr (by rw [hp]; simp)
-    refine And.intro (by rw [hph]; simp) (And.intro (fun hq => by rw [hq] at hne; cases hne) (fun k' _ => ?_))
-    rw [a]; cases w.connectReturned <;> rfl
+    have hne : w1.connectErr = false := by rw [c]; exact h.noErr (by rw [hp]; simp) (by rw [hp]; simp)
+    refine And.intro (by rw [hph]; simp) (And.intro (fun hq => by rw [hq] at hne; cases hne)
+      (And.intro (fun k' _ => hr) (fun _ hn _ => by rw [hn] at hr; cases hr)))
   | connOkStopped sp inb k hp _ _ hc hph hw he hd hs hx =>
-    refine XInv.of_noErr ?_ (by rw [hph]; simp) (by rw [hph]; simp)
-    rw [(ctxSt_eq' hx).2.2]; exact h.noErr (by rw [hp]; simp)
+    have hr := connOk_returned hx
+    refine XInv.of_live ?_ (by rw [hph]; simp) (by rw [hph]; simp) (fun hn => by rw [hn.2] at hr; cases hr)
+    rw [(ctxSt_eq' hx).2.2]; exact h.noErr (by rw [hp]; simp) (by rw [hp]; simp)
   | connFail _ hev k hp _ _ hc hdead hph hw he hd hs hx =>
-    refine XInv.of_noErr ?_ (by rw [hph]; simp) (by rw [hph]; simp)
-    rw [(ctxSt_eq hx).2.2]; exact h.noErr (by rw [hp]; simp)
+    obtain ⟨a, b, c⟩ := ctxSt_eq hx
+    refine XInv.of_live ?_ (by rw [hph]; simp) (by rw [hph]; simp)
+      (by rw [a, b]; exact h.live (by rw [hp]; simp) (by rw [hp]; simp) (by rw [hp]; simp))
+    rw [c]; exact h.noErr (by rw [hp]; simp) (by rw [hp]; simp)
   | connFailStopped _ hev k hp _ _ hc hph hw he hd hs hx =>
-    refine XInv.of_noErr ?_ (by rw [hph]; simp) (by rw [hph]; simp)
-    rw [(ctxSt_eq hx).2.2]; exact h.noErr (by rw [hp]; simp)
-  | disc hs0 w1 hc hph hw he hd hs hx =>
-    obtain ⟨h1, h2, h3⟩ := (h.transfer hph hx).loopReact
-    refine And.intro ?_ (And.intro ?_ ?_)
+    exact h.to_exited (by rw [hp]; simp) hph hx
+  | disc hs0 w1 hc hph hw he hd hs hx hcfg =>
+    obtain ⟨h1, h2, h3, h4⟩ := (h.transfer hph hx hcfg).loopReact
+    refine And.intro ?_ (And.intro ?_ (And.intro ?_ ?_))
     · intro hq
       apply h1
       have hq' : discPhase (Retry.loopReact w1).phase = .idle := hq
@@ -1732,12 +2052,28 @@ theorem XInv.shape {w w' : World} {ev : Ev} (h : XInv w) (hs : Shape w ev w') : 
     · intro hq
       obtain ⟨a, b, c⟩ := h2 hq
       refine ⟨?_, b, c⟩
-      show discPhase (Retry.loopReact w1).phase = .exited
-      rw [a]; rfl
+      rcases a with a | ⟨a, a'⟩
+      · left
+        show discPhase (Retry.loopReact w1).phase = .exited
+        rw [a]; rfl
+      · right
+        refine ⟨?_, a'⟩
+        show discPhase (Retry.loopReact w1).phase = .dialGate
+        rw [a]; rfl
     · intro k hk; exact absurd hk (discPhase_ne_up _ k)
-  | cancel hcc0 hcr0 _ hc hph hup hw he hd hs hx =>
+    · intro a b hq
+      refine h4 a b ?_
+      intro hr
+      apply hq
+      show discPhase (Retry.loopReact w1).phase = .idle
+      rw [hr]; rfl
+  | cancel hcc0 hcr0 _ hc hph hup hw he hd hs hx hcfg hnd =>
     obtain ⟨a, b, c⟩ := ctxSt_eq' hx
-    refine And.intro ?_ (And.intro ?_ ?_)
+    have hnu : ∀ k, w.phase ≠ .up k := by
+      intro k hp
+      have := h.2.2.1 k hp
+      rw [hcr0] at this; cases this
+    refine And.intro ?_ (And.intro ?_ (And.intro ?_ ?_))
     · intro hq
       rw [hph] at hq
       have hp : w.phase = .idle := by
@@ -1745,15 +2081,12 @@ theorem XInv.shape {w w' : World} {ev : Ev} (h : XInv w) (hs : Shape w ev w') : 
       refine ⟨a, ?_⟩
       rw [c, hp]; exact (h.1 hp).2
     · intro hq
-      refine ⟨?_, a, b⟩
+      refine ⟨Or.inl ?_, a, b⟩
       rw [c] at hq
       rw [hph]
       cases hr : w.phase with
       | idle => rw [hr] at hq; simp only [cancelErr] at hq; rw [(h.1 hr).2] at hq; cases hq
-      | up k =>
-        rw [hr] at hq; simp only [cancelErr] at hq
-        have := (h.2.1 hq).1
-        rw [hr] at this; cases this
+      | up k => exact absurd hr (hnu k)
       | backoff => rfl
       | dialGate => rfl
       | connackGate k => rfl
@@ -1763,17 +2096,27 @@ theorem XInv.shape {w w' : World} {ev : Ev} (h : XInv w) (hs : Shape w ev w') : 
       have hp : w.phase = .up k := by
         cases hr : w.phase <;> rw [hr] at hk <;> simp [cancelPhase] at hk
         rw [hk]
-      have := h.2.2 k hp
-      rw [hcr0] at this; cases this
+      exact absurd hp (hnu k)
+    · intro _ _ hq
+      rw [c]
+      rw [hph] at hq
+      cases hr : w.phase with
+      | idle => rw [hr] at hq; exact absurd rfl hq
+      | up k => exact absurd hr (hnu k)
+      | backoff => rfl
+      | dialGate => rfl
+      | connackGate k => rfl
+      | exited => rfl
+  | cancelDeaf hcc0 hcr0 hp hdf =>
+    refine And.intro (fun hq => ?_) (And.intro (fun _ => ⟨Or.inr ⟨hp, hdf⟩, hcr0, rfl⟩)
+      (And.intro (fun k hk => ?_) (fun _ _ _ => rfl)))
+    · rw [show w.phase = .dialGate from hp] at hq; cases hq
+    · rw [show w.phase = .dialGate from hp] at hk; cases hk
 
 theorem XInv.exec (s : Script) : XInv (exec s) :=
   exec_inv XInv (fun s => by simp [XInv, init]) (fun w ev h => h.shape (step_shape w ev)) s
 
 /-! #### a stopped loop leaves the dial / CONNECT attempt in flight through `.exited` -/
-
-theorem progress_cfg (w : World) : (progress w).cfg = w.cfg := by
-  unfold progress
-  rw [loopReact_cfg]; exact (frame_runTasks _ w).cfg
 
 theorem step_disconnect_cfg (w : World) : (step w .disconnect).cfg = w.cfg := by
   rw [step_disconnect]
@@ -1829,6 +2172,10 @@ theorem stopped_gate_shape {w w' : World} {ev : Ev} (hst : w.stopped = true) (hs
       · exact Or.inl (Or.inl (hlr w1 hf.phase (fun k hk => hu ⟨k, hk⟩)))
     | start hp => exact Or.inr (Or.inr (Or.inl hp))
     | startCancelled hp => exact Or.inr (Or.inr (Or.inl hp))
+    | startCancelledDeaf hp => exact Or.inr (Or.inr (Or.inl hp))
+    | dialOkCancelled i hp _ _ _ hc hph => exact Or.inl (Or.inr (Or.inl hph))
+    | dialFailCancelled hp => exact Or.inl (Or.inr (Or.inl rfl))
+    | cancelDeaf => exact Or.inl (Or.inl rfl)
     | dialOk i hp _ hc hph => exact Or.inl (Or.inr (Or.inr ⟨⟨i, rfl⟩, hp, hph⟩))
     | dialFail hp hs0 => rw [hst] at hs0; cases hs0
     | dialFailStopped hp => exact Or.inl (Or.inr (Or.inl rfl))
@@ -1862,5 +2209,201 @@ theorem stopped_gate_shape {w w' : World} {ev : Ev} (hst : w.stopped = true) (hs
     · rw [hp] at h; cases h
     · rw [hp] at h; cases h
     · rw [hp] at h; cases h
+
+/-! #### the `.dialOk` / `.dialFail` steps, split by whether the first Connect's context was cancelled -/
+
+/-- the world just before `progress` in the `.dialOk` step of a cancelled first Connect -/
+def dialOkCancelledPre (w : World) (i : Nat) : World :=
+  { w with conns := w.conns ++ [deadConn w i], cli := some w.conns.length, connReady := true, goroutine := true,
+           gConnected := if w.goroutine ∧ w.gConnected ∧ ¬ w.stuck then false else w.gConnected,
+           phase := .exited }
+
+theorem step_dialOk_cancelled (w : World) (i : Nat) (hp : w.phase = .dialGate) (hcc : w.ctxCancelled = true)
+    (hcr : w.connectReturned = none) : step w (.dialOk i) = progress (dialOkCancelledPre w i) := by
+  have h1 : ¬ (w.phase ≠ .dialGate) := by simp [hp]
+  have h2 : w.ctxCancelled = true ∧ w.connectReturned.isNone = true := ⟨hcc, by rw [hcr]; rfl⟩
+  simp only [step, if_neg h1, if_pos h2]
+  rfl
+
+/-- … the loop ends whether or not Disconnect was called, no wait is logged -/
+theorem step_dialFail_cancelled (w : World) (hp : w.phase = .dialGate) (hcc : w.ctxCancelled = true)
+    (hcr : w.connectReturned = none) : step w .dialFail = { w with phase := .exited } := by
+  have h1 : ¬ (w.phase ≠ .dialGate) := by simp [hp]
+  have h2 : w.ctxCancelled = true ∧ w.connectReturned.isNone = true := ⟨hcc, by rw [hcr]; rfl⟩
+  simp only [step, if_neg h1, if_pos h2]
+  split <;> rfl
+
+/-- the `.dialOk` step when the first Connect's context is live or Connect has succeeded: as before the
+    model change -/
+theorem step_dialOk_live (w : World) (i : Nat) (hp : w.phase = .dialGate)
+    (hnc : ¬ (w.ctxCancelled = true ∧ w.connectReturned = none)) :
+    step w (.dialOk i) =
+      { w with conns := w.conns ++ [freshConn w i], cli := some w.conns.length, connReady := false, goroutine := true,
+               gConnected := if w.goroutine ∧ w.gConnected ∧ ¬ w.stuck then false else w.gConnected,
+               phase := .connackGate w.conns.length } := by
+  have h1 : ¬ (w.phase ≠ .dialGate) := by simp [hp]
+  have h2 : ¬ (w.ctxCancelled = true ∧ w.connectReturned.isNone = true) := by
+    intro hc; exact hnc ⟨hc.1, Option.isNone_iff_eq_none.1 hc.2⟩
+  simp only [step, if_neg h1, if_neg h2]
+  rfl
+
+/-- with nothing queued the task goroutine leaves the connections alone -/
+theorem progress_conns_of_empty (w : World) (hq : w.taskQ = []) : (progress w).conns = w.conns := by
+  unfold progress
+  rw [loopReact_conns, hq]
+  simp only [List.length_nil, runTasks]
+  split
+  · rfl
+  · split
+    · rfl
+    · simp only [hq]
+
+/-- `.dialOk` after the cancellation of the first Connect's context (in `.dialGate`: only a dialer that
+    ignores its context gets here): the loop ends; exactly one connection is appended — CONNECT written,
+    closed from the start (the task goroutine may log failed writes on it; none if nothing is queued) —
+    no dial, no wait, Connect's outcome unchanged -/
+theorem dialOk_cancelled_spec (w : World) (i : Nat) (hp : w.phase = .dialGate) (hcc : w.ctxCancelled = true)
+    (hcr : w.connectReturned = none) : let w' := step w (.dialOk i)
+    w'.phase = .exited ∧ w'.dials = w.dials ∧ w'.waits = w.waits ∧ w'.stopped = w.stopped ∧ ctxSt w' = ctxSt w ∧
+    ConnsExt (w.conns ++ [deadConn w i]) w'.conns ∧ w'.conns.length = w.conns.length + 1 ∧
+    (getConn w' w.conns.length).alive = false ∧
+    (w.taskQ = [] → w'.conns = w.conns ++ [deadConn w i]) := by
+  simp only [step_dialOk_cancelled w i hp hcc hcr]
+  have hf := progress_not_up (dialOkCancelledPre w i) (by intro k; simp [dialOkCancelledPre])
+  refine ⟨hf.phase, hf.dials, hf.waits, hf.stopped, hf.ctx, hf.1, by rw [hf.length]; simp [dialOkCancelledPre], ?_,
+    fun hq => progress_conns_of_empty _ hq⟩
+  apply hf.dead
+  simp [getConn, dialOkCancelledPre, List.getD, deadConn]
+
+/-! #### a closed connection stays closed -/
+
+theorem dead_lt {w : World} {j : Nat} (hd : (getConn w j).alive = false) : j < w.conns.length := by
+  by_cases hj : j < w.conns.length
+  · exact hj
+  · have : getConn w j = {} := by
+      unfold getConn
+      simp [List.getD, List.getElem?_eq_none (Nat.le_of_not_lt hj)]
+    rw [this] at hd; cases hd
+
+theorem shape_dead {w w' : World} {ev : Ev} (hs : Shape w ev w') {j : Nat}
+    (hd : (getConn w j).alive = false) : (getConn w' j).alive = false := by
+  have hj := dead_lt hd
+  unfold getConn at hd ⊢
+  rcases shape_conns hs with he | ⟨i, he⟩ | ⟨i, he⟩
+  · exact he.dead hd
+  · rw [he, getD_append_left _ _ _ hj]; exact hd
+  · apply he.dead; rw [getD_append_left _ _ _ hj]; exact hd
+
+theorem step_dead (w : World) (ev : Ev) {j : Nat} (hd : (getConn w j).alive = false) :
+    (getConn (step w ev) j).alive = false := shape_dead (step_shape w ev) hd
+
+theorem foldl_dead (evs : List Ev) (w : World) {j : Nat} (hd : (getConn w j).alive = false) :
+    (getConn (evs.foldl step w) j).alive = false := by
+  induction evs generalizing w with
+  | nil => exact hd
+  | cons e evs ih => exact ih _ (step_dead w e hd)
+
+/-! #### after the cancellation of the first Connect's context: the loop has ended, or ends with the dial in flight -/
+
+/-- One step from a world whose first Connect was cancelled before any success and whose loop has ended
+    or is inside DialContext (reachable only with a dialer that ignores its context): the context stays
+    cancelled, Connect never succeeds, NO dial is made; the phase and the number of connections stay,
+    unless the dial in flight resolves — `.dialFail`: the loop ends; `.dialOk`: the loop ends and ONE
+    connection is appended, closed from the start. -/
+theorem cancelled_shape {w w' : World} {ev : Ev} (hcc : w.ctxCancelled = true) (hcr : w.connectReturned = none)
+    (hp : w.phase = .exited ∨ w.phase = .dialGate) (hs : Shape w ev w') :
+    w'.ctxCancelled = true ∧ w'.connectReturned = none ∧ w'.dials = w.dials ∧
+    ((w'.phase = w.phase ∧ w'.conns.length = w.conns.length) ∨
+     (w.phase = .dialGate ∧ ev = .dialFail ∧ w'.phase = .exited ∧ w'.conns.length = w.conns.length) ∨
+     (w.phase = .dialGate ∧ (∃ i, ev = .dialOk i) ∧ w'.phase = .exited ∧
+        w'.conns.length = w.conns.length + 1 ∧ (getConn w' w.conns.length).alive = false)) := by
+  have hni : w.phase ≠ .idle := by rcases hp with h | h <;> rw [h] <;> simp
+  have hnb : w.phase ≠ .backoff := by rcases hp with h | h <;> rw [h] <;> simp
+  have hng : ∀ k, w.phase ≠ .connackGate k := by intro k; rcases hp with h | h <;> rw [h] <;> simp
+  have hnu : ∀ k, w.phase ≠ .up k := by intro k; rcases hp with h | h <;> rw [h] <;> simp
+  have hlr : ∀ w1 : World, w1.phase = w.phase → loopReact w1 = w1 :=
+    fun w1 h1 => loopReact_of_not_up w1 (by intro k; rw [h1]; exact hnu k)
+  cases hs with
+  | frame _ _ hf =>
+    exact ⟨hf.ctxCancelled.trans hcc, hf.connectReturned.trans hcr, hf.dials, Or.inl ⟨hf.phase, hf.length⟩⟩
+  | react _ w1 hf =>
+    rw [hlr w1 hf.phase]
+    exact ⟨hf.ctxCancelled.trans hcc, hf.connectReturned.trans hcr, hf.dials, Or.inl ⟨hf.phase, hf.length⟩⟩
+  | start hp0 => exact absurd hp0 hni
+  | startCancelled hp0 => exact absurd hp0 hni
+  | startCancelledDeaf hp0 => exact absurd hp0 hni
+  | dialOk i hp0 _ hc hph hw he hd hs hx hcfg hnc => exact absurd ⟨hcc, hcr⟩ hnc
+  | dialOkCancelled i hp0 _ _ _ hc hph hw he hd hs hx =>
+    obtain ⟨a, b, _⟩ := ctxSt_eq hx
+    refine ⟨b.trans hcc, a.trans hcr, hd, Or.inr (Or.inr ⟨hp0, ⟨i, rfl⟩, hph, by rw [hc.1]; simp, ?_⟩)⟩
+    unfold getConn
+    apply hc.dead
+    simp [List.getD, deadConn]
+  | dialFail hp0 hs0 hnc => exact absurd ⟨hcc, hcr⟩ hnc
+  | dialFailCancelled hp0 => exact ⟨hcc, hcr, rfl, Or.inr (Or.inl ⟨hp0, rfl, rfl, rfl⟩)⟩
+  | dialFailStopped hp0 => exact ⟨hcc, hcr, rfl, Or.inr (Or.inl ⟨hp0, rfl, rfl, rfl⟩)⟩
+  | waitElapsed hp0 => exact absurd hp0 hnb
+  | connOk sp inb k hp0 => exact absurd hp0 (hng k)
+  | connOkStopped sp inb k hp0 => exact absurd hp0 (hng k)
+  | connFail _ hev k hp0 => exact absurd hp0 (hng k)
+  | connFailStopped _ hev k hp0 => exact absurd hp0 (hng k)
+  | disc hs0 w1 hc hph hw he hd hs hx =>
+    obtain ⟨a, b, _⟩ := ctxSt_eq hx
+    rw [hlr w1 hph]
+    refine ⟨b.trans hcc, a.trans hcr, hd, Or.inl ⟨?_, hc.1⟩⟩
+    show discPhase w1.phase = w.phase
+    rw [hph]
+    rcases hp with h | h <;> rw [h] <;> rfl
+  | cancel hcc0 => rw [hcc] at hcc0; cases hcc0
+  | cancelDeaf hcc0 => rw [hcc] at hcc0; cases hcc0
+
+/-- … over any sequence of later events: never another dial; at most one more connection, and only if
+    the loop was inside DialContext; every connection created is closed from the start; the loop is
+    `.exited`, or still inside that same DialContext. -/
+theorem cancelled_foldl (evs : List Ev) (w : World) (hcc : w.ctxCancelled = true) (hcr : w.connectReturned = none)
+    (hp : w.phase = .exited ∨ w.phase = .dialGate) :
+    (evs.foldl step w).ctxCancelled = true ∧ (evs.foldl step w).connectReturned = none ∧
+    (evs.foldl step w).dials = w.dials ∧
+    ((evs.foldl step w).phase = .exited ∨ ((evs.foldl step w).phase = .dialGate ∧ w.phase = .dialGate)) ∧
+    w.conns.length ≤ (evs.foldl step w).conns.length ∧
+    (evs.foldl step w).conns.length + connBudget (evs.foldl step w).phase ≤ w.conns.length + connBudget w.phase ∧
+    (∀ j, w.conns.length ≤ j → j < (evs.foldl step w).conns.length →
+      (getConn (evs.foldl step w) j).alive = false) := by
+  induction evs generalizing w with
+  | nil =>
+    refine ⟨hcc, hcr, rfl, ?_, Nat.le_refl _, Nat.le_refl _, fun j h1 h2 => absurd h2 (by simp only [List.foldl_nil]; omega)⟩
+    rcases hp with h | h
+    · exact Or.inl h
+    · exact Or.inr ⟨h, h⟩
+  | cons e es ih =>
+    obtain ⟨a1, a2, a3, a4⟩ := cancelled_shape hcc hcr hp (step_shape w e)
+    have hp1 : (step w e).phase = .exited ∨ (step w e).phase = .dialGate := by
+      rcases a4 with ⟨h, _⟩ | ⟨_, _, h, _⟩ | ⟨_, _, h, _⟩
+      · rw [h]; exact hp
+      · exact Or.inl h
+      · exact Or.inl h
+    obtain ⟨b1, b2, b3, b4, b5, b6, b7⟩ := ih (step w e) a1 a2 hp1
+    simp only [List.foldl_cons]
+    refine ⟨b1, b2, b3.trans a3, ?_, ?_, ?_, ?_⟩
+    · rcases b4 with h | ⟨h, h'⟩
+      · exact Or.inl h
+      · right
+        refine ⟨h, ?_⟩
+        rcases a4 with ⟨g, _⟩ | ⟨_, _, g, _⟩ | ⟨_, _, g, _⟩
+        · rw [← g]; exact h'
+        · rw [g] at h'; cases h'
+        · rw [g] at h'; cases h'
+    · rcases a4 with ⟨_, g⟩ | ⟨_, _, _, g⟩ | ⟨_, _, _, g, _⟩ <;> omega
+    · rcases a4 with ⟨g, g'⟩ | ⟨g0, _, g, g'⟩ | ⟨g0, _, g, g', _⟩
+      · rw [g, g'] at b6; exact b6
+      · rw [g, g'] at b6; rw [g0]; simp only [connBudget] at b6 ⊢; omega
+      · rw [g, g'] at b6; rw [g0]; simp only [connBudget] at b6 ⊢; omega
+    · intro j h1 h2
+      rcases a4 with ⟨_, g'⟩ | ⟨_, _, _, g'⟩ | ⟨_, _, _, g', gd⟩
+      · exact b7 j (by omega) h2
+      · exact b7 j (by omega) h2
+      · by_cases hj : j = w.conns.length
+        · subst hj; exact foldl_dead es _ gd
+        · exact b7 j (by omega) h2
 
 end Mqtt.Retry
